@@ -1,25 +1,61 @@
 #!/usr/bin/env python3
-"""Run every seeded change against its own property's quick check (plus any extra checks named on the command line) and record the result in
-seeded/<id>/meta.json (caught_by).   tools/matrix.py [ids...]"""
-import subprocess, sys, json, os, glob
-sys.path.insert(0, '/verif')
-ids = sys.argv[1:] or sorted(os.path.basename(os.path.dirname(p)) for p in glob.glob('/verif/seeded/*/patch.diff'))
+"""Run seeded changes against the quick check of their own property (plus extra checks) and record the result in
+seeded/<id>/meta.json (caught_by).
+
+  tools/matrix.py [--in-repo] [--verif DIR] [ids... | id:check,check ...]
+
+Default mode: each change is applied in a scratch worktree of /repo (removed afterwards) and the checks run with
+VERIF_REPO pointing at it, so /repo itself is never touched and other runs that read /repo are not disturbed.
+--in-repo: apply to /repo itself (git -C /repo apply), run, undo (git -C /repo checkout -- .) — the way the checks are used.
+--verif DIR: run the checks from a copy of /verif (so that /verif's lake project stays free for other work)."""
+import subprocess, sys, json, os, glob, shutil
+args = sys.argv[1:]
+in_repo = '--in-repo' in args
+if in_repo: args.remove('--in-repo')
+vdir = '/verif'
+if '--verif' in args:
+    i = args.index('--verif'); vdir = args[i + 1]; del args[i:i + 2]
+ids = args or sorted(os.path.basename(os.path.dirname(p)) for p in glob.glob('/verif/seeded/*/patch.diff'))
 EXTRA = {'C04-A': ['C06', 'C12'], 'C12-A': ['C06'], 'C09-A': ['C08'], 'C09-B': ['C08'], 'C03-A': ['C07', 'C10'], 'C03-B': ['C07', 'C15'], 'C19-B': ['C02', 'C05']}
-for sid in ids:
+
+def sh(cmd, **kw):
+    return subprocess.run(cmd, shell=True, capture_output=True, text=True, **kw)
+
+for spec in ids:
+    sid, _, extra = spec.partition(':')
     prop = sid.split('-')[0]
-    checks = [prop] + EXTRA.get(sid, [])
-    assert subprocess.run('git -C /repo status --porcelain --untracked-files=no', shell=True, capture_output=True, text=True).stdout.strip() == '', '/repo not clean'
-    assert subprocess.run('git -C /repo apply /verif/seeded/%s/patch.diff' % sid, shell=True).returncode == 0
-    caught = {}
+    checks = [prop] + [c for c in (extra.split(',') if extra else EXTRA.get(sid, [])) if c != prop]
+    env = dict(os.environ)
+    if in_repo:
+        assert sh('git -C /repo status --porcelain --untracked-files=no').stdout.strip() == '', '/repo not clean'
+        assert sh('git -C /repo apply /verif/seeded/%s/patch.diff' % sid).returncode == 0
+    else:
+        wt = '/tmp/mx/wt-' + sid
+        sh('git -C /repo worktree remove --force ' + wt); shutil.rmtree(wt, ignore_errors=True)
+        os.makedirs('/tmp/mx', exist_ok=True)
+        r = sh('git -C /repo worktree add -q --detach %s HEAD' % wt); assert r.returncode == 0, r.stderr
+        r = sh('git apply /verif/seeded/%s/patch.diff' % sid, cwd=wt); assert r.returncode == 0, r.stderr
+        env['VERIF_REPO'] = wt
+    caught = {}; detail = {}
     try:
         for c in checks:
-            p = subprocess.run('python3 /verif/check.py %s --tier quick' % c, shell=True, capture_output=True, text=True, cwd='/verif')
+            p = subprocess.run('python3 %s/check.py %s --tier %s' % (vdir, c, os.environ.get('TIER', 'quick')), shell=True,
+                               capture_output=True, text=True, cwd=vdir, env=env)
             v = [l for l in p.stdout.split('\n') if l.startswith('VIOLATION')]
             caught[c] = ('concrete-input' if v and 'no-failing-input-found' not in v[0] else 'no-failing-input-found' if v else 'MISSED')
+            detail[c] = v[:2]
     finally:
-        subprocess.run('git -C /repo checkout -- .', shell=True)
+        if in_repo: sh('git -C /repo checkout -- .')
+        else:
+            sh('git -C /repo worktree remove --force ' + wt); shutil.rmtree(wt, ignore_errors=True)
     mp = '/verif/seeded/%s/meta.json' % sid
-    m = json.load(open(mp)); m['caught_by'] = caught; json.dump(m, open(mp, 'w'), indent=1)
+    m = json.load(open(mp))
+    cb = m.get('caught_by') if isinstance(m.get('caught_by'), dict) else {}
+    cb.update(caught); m['caught_by'] = cb
+    json.dump(m, open(mp, 'w'), indent=1)
     print(sid, caught, flush=True)
-from vlib import core
-core.regen()
+    for c, v in detail.items():
+        for l in v: print('    ', c, l[:300], flush=True)
+# the generated model must describe the unchanged tree again
+subprocess.run('python3 -c "import sys; sys.path.insert(0, \'%s\'); from vlib import core; core.regen()"' % vdir, shell=True, cwd=vdir,
+               env={k: v for k, v in os.environ.items() if k != 'VERIF_REPO'})
